@@ -8,7 +8,8 @@ from vf.props.common import assume, cover
 
 # event classes that need a connected transport
 MSG_EVENTS = ('open_ok', 'open_badver', 'open_badas', 'open_hold12', 'open_badparam', 'open_short', 'ka', 'upd',
-              'upd_bad', 'upd_trunc', 'notif_ver', 'notif', 'rr', 'rr128', 'hdr_marker', 'hdr_len', 'hdr_type', 'badlen')
+              'upd_bad', 'upd_trunc', 'notif_ver', 'notif', 'notif_then_more', 'rr', 'rr128', 'hdr_marker', 'hdr_len', 'hdr_type',
+              'badlen')
 
 EVENTS_BY_STATE = {
     S.IDLE: ['start_idlehold', 'manual_start', 'manual_stop'],
@@ -26,7 +27,7 @@ def oracle_event(ev):
     """(oracle event class, expected subcode or None)"""
     m = {'open_badver': ('open_bad', 1), 'open_badas': ('open_bad', 2), 'open_hold12': ('open_bad', 6),
          'open_badparam': ('open_bad', 4), 'hdr_marker': ('hdr', 1), 'hdr_len': ('hdr', 2), 'hdr_type': ('hdr', 3), 'badlen': ('hdr', 2),
-         'upd_trunc': ('upd_bad', None)}
+         'upd_trunc': ('upd_bad', None), 'notif_then_more': ('notif', None)}
     return m.get(ev, (ev, None))
 
 
@@ -89,6 +90,14 @@ def message_for(ev, w, a, b, c):
         assume(0 <= a < 256 and 0 <= b < 256)
         assume(not (a == 2 and b == 1))
         return S.rfc_notification(a, b)
+    if ev == 'notif_then_more':
+        # one TCP segment: a NOTIFICATION (which ends the session) followed by more messages - an unknown-type header, a
+        # KEEPALIVE, an OPEN of the wrong AS: nothing after the NOTIFICATION may be acted upon
+        assume(0 <= a < 256 and 0 <= b < 256)
+        assume(not (a == 2 and b == 1))
+        assume(0 <= c < 256 and c != 1 and c != 2 and c != 3 and c != 4 and c != 5 and c != 128)
+        return S.rfc_notification(a, b) + S.MARKER + struct.pack('!H', 19) + bytes([c]) + S.KEEPALIVE + \
+            S.rfc_open(4, 64999, 90, 0x0A000002, S.cap_as4(64999))
     if ev == 'rr':
         assume(0 <= a < 65536 and 0 <= b < 256)
         return S.rfc_route_refresh(a, b, 0, 5)
@@ -164,7 +173,10 @@ def observe(w, mark):
             if ln < 19:
                 break
             i += ln
-    return {'state': w.state, 'writes': writes, 'opens': opens,
+    timers = {}
+    for name in ('connect_retry', 'hold', 'keepalive', 'idle_hold'):
+        timers[name] = (w.timer_deadline(name) - w.reactor.now) if w.timer_active(name) else None
+    return {'state': w.state, 'writes': writes, 'opens': opens, 'timers': timers,
             'close': len(w.reactor.lose_log) - mark['lose'],
             'connects': len(w.reactor.connectors) - mark['conn'],
             'cbs': [h[0] for h in w.handler.log[mark['hlog']:]],
@@ -178,7 +190,7 @@ TIMER_CLASS = {'connect_retry': 'crt', 'hold': 'holdt', 'keepalive': 'kat', 'idl
 
 
 DEFAULT_VALS = {'open_ok': [90, 0x0A000002, 0], 'open_badver': [3, 90, 0], 'open_badas': [65009, 65009, 0],
-                'open_hold12': [1, 0, 0], 'open_badparam': [1, 0, 0], 'upd_bad': [7, 0, 0], 'upd_trunc': [3, 0, 0], 'notif': [6, 2, 0],
+                'open_hold12': [1, 0, 0], 'open_badparam': [1, 0, 0], 'upd_bad': [7, 0, 0], 'upd_trunc': [3, 0, 0], 'notif_then_more': [6, 2, 9], 'notif': [6, 2, 0],
                 'rr': [1, 1, 0], 'rr128': [1, 1, 0], 'hdr_marker': [0, 0, 0], 'hdr_len': [18, 0, 0],
                 'hdr_type': [9, 0, 0]}
 
